@@ -349,6 +349,23 @@ def _run_scale(ctx, out):
           bad = f'{what} of {q1}, {q2}: {got} vs {want}'
     nm = f'{sname}: nondimensionalize respects products, quotients and powers (12 random pairs, rel 1e-12)'
     (out.ok(nm, 'enum') if bad is None else out.fail(nm, witness={'scale': sname}, detail=bad, key='scale multiplicative'))
+    # offset temperature units (degC, degF): the conversion is affine, not a pure rescaling
+    bad = None
+    for val, unit in ((25.0, u.degC), (-40.0, u.degC), (98.6, u.degF), (0.0, u.degC), (300.0, u.degK), (540.0, u.degR)):
+      nd = scale.nondimensionalize(val * unit if unit in (u.degK, u.degR) else u.Quantity(val, unit))
+      same = scale.nondimensionalize(u.Quantity(val, unit).to(u.degK))
+      if abs(nd / same - 1) > 1e-13:
+        bad = f'nondimensionalize({val} {unit}) = {nd}, but the same temperature in kelvin gives {same}'
+      for tgt in (u.degC, u.degF, u.degK, u.degR):
+        back = scale.dimensionalize(nd, tgt)
+        want = u.Quantity(val, unit).to(tgt).magnitude
+        if abs(back.magnitude - want) > 1e-9 * max(1.0, abs(want)):
+          bad = f'dimensionalize(nondimensionalize({val} {unit}), {tgt}) = {back}, expected {want} {tgt}'
+        k1, k2 = back.to(u.degK).magnitude, scale.dimensionalize(nd, u.degK).magnitude
+        if abs(k1 - k2) > 1e-9 * max(1.0, abs(k2)):
+          bad = f'dimensionalize(y, {tgt}).to(K) = {k1} differs from dimensionalize(y, K) = {k2}'
+    nm = f'{sname}: temperatures round-trip through offset units (degC, degF) and agree with the kelvin conversion'
+    (out.ok(nm, 'enum') if bad is None else out.fail(nm, witness={'scale': sname}, detail=bad, key='scale offset units'))
     # arrays
     arr = np.array([1e-9, 1.0, 2.5, 7e11])
     nd = scale.nondimensionalize(arr * u.m / u.s)
